@@ -147,16 +147,16 @@ impl World {
             Ok(Some(g)) => g,
             _ => return "norecord".into(),
         };
-        let (mls_epoch, token, members, mls_name, queued) = match m.load_mls_group(gid) {
+        let (mls_epoch, token, members, mls_data, queued) = match m.load_mls_group(gid) {
             Ok(Some(g)) => {
                 let auth = g.epoch_authenticator().as_slice().to_vec();
                 let n = self.tokens.len();
                 let t = *self.tokens.entry(auth).or_insert(n);
                 let mem: BTreeSet<String> = m.get_members(gid).map(|s| s.iter().map(|p| self.who(p)).collect()).unwrap_or_default();
-                let name = mdk_core::extension::NostrGroupDataExtension::from_group(&g).map(|d| d.name).unwrap_or_default();
-                (g.epoch().as_u64() as i64, t as i64, mem, name, g.pending_proposals().count())
+                let data = mdk_core::extension::NostrGroupDataExtension::from_group(&g).ok();
+                (g.epoch().as_u64() as i64, t as i64, mem, data, g.pending_proposals().count())
             }
-            _ => (-1, -1, BTreeSet::new(), String::new(), 0),
+            _ => (-1, -1, BTreeSet::new(), None, 0),
         };
         let admins: BTreeSet<String> = group.admin_pubkeys.iter().map(|p| self.who(p)).collect();
         let relays: BTreeSet<u64> = m.get_relays(gid).map(|s| s.iter().map(relay_num).collect()).unwrap_or_default();
@@ -216,7 +216,18 @@ impl World {
             }
         }
         let snaps = storage.list_group_snapshots(gid).map(|l| l.len()).unwrap_or(999);
-        let rec_sync = if group.epoch as i64 == mls_epoch && group.name == mls_name { "" } else { "!sync" };
+        // C08: every field `sync_group_metadata_from_mls` copies, compared with the MLS state's own extension
+        let stored_relays: BTreeSet<RelayUrl> = m.get_relays(gid).unwrap_or_default();
+        let rec_sync = match &mls_data {
+            Some(d) if group.epoch as i64 == mls_epoch
+                && group.name == d.name
+                && group.description == d.description
+                && group.admin_pubkeys == d.admins
+                && group.nostr_group_id == d.nostr_group_id
+                && stored_relays == d.relays
+                && group.image_hash == d.image_hash => "",
+            _ => "!sync",
+        };
         format!(
             "E{} T{} M[{}] A[{}] N{} D{} I{} R[{}] S{} PA[{}] PR[{}] L{} X[{}] K[{}] Z{}{} Q{}",
             group.epoch,
@@ -399,20 +410,25 @@ impl World {
                     }
                     "leave" => m.leave_group(&gid),
                     _ => {
-                        // data <i> <field> <value> <ts>
+                        // data <i> (<field> <value>)+ <ts>   — one `update_group_data` call with the named fields set
                         let mut upd = NostrGroupDataUpdate::default();
-                        match t[2] {
-                            "name" => upd.name = Some(format!("name{}", t[3])),
-                            "namelen" => upd.name = Some("n".repeat(u(t[3]) as usize)),
-                            "desc" => upd.description = Some(format!("desc{}", t[3])),
-                            "relays" => upd.relays = Some((1..=u(t[3])).map(relay).collect()),
-                            "admins" => upd.admins = Some(t[3].split(',').map(|j| self.clients[u(j) as usize].keys.public_key()).collect()),
-                            "nid" => {
-                                let mut b = [0x5Au8; 32];
-                                b[24..].copy_from_slice(&u(t[3]).to_be_bytes());
-                                upd.nostr_group_id = Some(b)
+                        let mut k = 2;
+                        while k + 2 <= t.len() - 1 {
+                            let (f, v) = (t[k], t[k + 1]);
+                            match f {
+                                "name" => upd.name = Some(format!("name{}", v)),
+                                "namelen" => upd.name = Some("n".repeat(u(v) as usize)),
+                                "desc" => upd.description = Some(format!("desc{}", v)),
+                                "relays" => upd.relays = Some((1..=u(v)).map(relay).collect()),
+                                "admins" => upd.admins = Some(v.split(',').filter(|x| !x.is_empty() && *x != "-").map(|j| self.clients[u(j) as usize].keys.public_key()).collect()),
+                                "nid" => {
+                                    let mut b = [0x5Au8; 32];
+                                    b[24..].copy_from_slice(&u(v).to_be_bytes());
+                                    upd.nostr_group_id = Some(b)
+                                }
+                                _ => {}
                             }
-                            _ => {}
+                            k += 2;
                         }
                         m.update_group_data(&gid, upd)
                     }
@@ -473,7 +489,7 @@ impl World {
                 self.push_event(ne)
             }
             "retag" => {
-                // retag <n> <client j>: same ciphertext, h tag of client j's current group id
+                // retag <n> <client j> [tsoff]: same ciphertext, h tag of client j's current group id (original or chosen timestamp)
                 let e = self.events[u(t[1]) as usize].clone();
                 let j = u(t[2]) as usize;
                 let nid = {
@@ -488,7 +504,7 @@ impl World {
                     Some(n) => {
                         let ne = EventBuilder::new(e.kind, e.content.clone())
                             .tag(Tag::custom(TagKind::h(), [hex::encode(n)]))
-                            .custom_created_at(e.created_at)
+                            .custom_created_at(if t.len() > 3 { Timestamp::from(self.t0 + u(t[3])) } else { e.created_at })
                             .sign_with_keys(&Keys::generate())
                             .unwrap();
                         self.push_event(ne)
